@@ -80,6 +80,8 @@ const (
 	KRune            // a rune (int32) operand that is a marker character, a line feed or an ordinary letter: %c %q %U %#U render the character itself
 	KPanicRuntime    // Stringer whose method panics with a runtime.Error whose text carries the (unsafe) value: names[l] out of range
 	KAnonTagged      // value of an unnamed struct type whose descriptor (%T, %#v) carries marker characters in a field tag
+	KSafeBytes       // SafeValue-marked byte-slice type (fmtBytes path: %s %q %x %X leave printValue early)
+	KSafeNilMap      // nil value of a SafeValue-marked map type (%#v leaves printValue early)
 	KMapSortKeys     // maps whose printing order exercises fmtsort: unsigned keys around 1<<63, signed, floats incl. NaN/Inf/-0, bool, arrays, complex, uintptr
 	kindCount
 )
@@ -189,6 +191,18 @@ type enumStrg int
 var enumNames = [...]string{"a", "b", "c"}
 
 func (e enumStrg) String() string { return enumNames[int(e)] }
+
+type safeBytesT []byte
+
+func (safeBytesT) SafeValue() {}
+
+type safeMapT map[string]int
+
+func (safeMapT) SafeValue() {}
+
+type safeSliceT []int
+
+func (safeSliceT) SafeValue() {}
 
 type panicErr struct{ s string }
 
@@ -412,6 +426,22 @@ func (v *Val) build(inst int) interface{} {
 		return sortKeyMap(v.ID, inst)
 	case KPanicRuntime:
 		return enumStrg(unsafeInt(v.ID, inst))
+	case KSafeBytes:
+		// one object per id: its address (%p) is public data shared by both instantiations
+		cacheMu.Lock()
+		defer cacheMu.Unlock()
+		k := [3]int{int(KSafeBytes), v.ID, 0}
+		if x, ok := objCache[k]; ok {
+			return x
+		}
+		x := safeBytesT(safeStr(v.ID))
+		objCache[k] = x
+		return x
+	case KSafeNilMap:
+		if v.ID%2 == 0 {
+			return safeMapT(nil)
+		}
+		return safeSliceT(nil)
 	case KAnonTagged:
 		n := unsafeInt(v.ID, inst)
 		switch v.ID % 4 {
@@ -519,13 +549,13 @@ func (v *Val) panics() bool {
 
 // ownClass: the value (or a part of it) has a classification of its own.
 func (v *Val) ownClass() bool {
-	return v.hasKind(KSafeStringer, KSafeStr, KSafeInt, KSafeFormatter, KSafeMessager, KPanicSafeFormatter, KSafe, KUnsafe, KRedactable, KRedactableB, KBuilder)
+	return v.hasKind(KSafeBytes, KSafeNilMap, KSafeStringer, KSafeStr, KSafeInt, KSafeFormatter, KSafeMessager, KPanicSafeFormatter, KSafe, KUnsafe, KRedactable, KRedactableB, KBuilder)
 }
 
 var leafKinds = []VKind{KNil, KBool, KInt, KInt8, KUint16, KUint64, KUintptr, KFloat, KComplex, KString, KBytes, KNamedStr, KNamedInt,
 	KSafeStr, KSafeInt, KRegInt, KRegStruct, KErr, KStringer, KPStringer, KNilStringer, KGoStringer, KFormatter, KSafeFormatter, KSafeMessager,
 	KErrFormatter, KErrStringer, KPanicStringer, KPanicError, KPanicSafeFormatter, KPtrStruct, KPtrRegStruct, KNilPtr, KIntPtr, KStrSlice, KIntArr, KMapKeyed,
-	KRedactable, KRedactableB, KChan, KFunc, KByteArr, KDuration, KBuilder, KSafeStringer, KFormatterWS, KMapIfaceKey, KMapStructKey, KNilMapStringer, KNilSliceError, KNilFuncStringer, KMapSortKeys, KRune, KPanicRuntime, KAnonTagged}
+	KRedactable, KRedactableB, KChan, KFunc, KByteArr, KDuration, KBuilder, KSafeStringer, KFormatterWS, KMapIfaceKey, KMapStructKey, KNilMapStringer, KNilSliceError, KNilFuncStringer, KMapSortKeys, KRune, KPanicRuntime, KAnonTagged, KSafeBytes, KSafeNilMap}
 
 var redactPool = []string{"", "plain", "‹x›", "a ‹b› c", "‹a›\n‹b›", "?‹?›", "‹×›", "‹ ›x\n", "pre‹u1›mid‹u2›post", "‹q?z›"}
 
@@ -591,7 +621,7 @@ func (v *Val) String() string {
 		KPanicSafeFormatter: "panicSafeFormatter", KPtrStruct: "*struct", KPtrRegStruct: "*RegStruct", KNilPtr: "nil*struct", KIntPtr: "*int", KReflectValue: "reflect.Value",
 		KSafe: "Safe", KUnsafe: "Unsafe", KSlice: "[]any", KStrSlice: "[]string", KIntArr: "[2]int", KMap: "map", KMapKeyed: "map[MyStr]int",
 		KStruct: "struct", KRedactable: "RedactableString", KRedactableB: "RedactableBytes", KChan: "chan", KFunc: "func", KByteArr: "[3]byte",
-		KDuration: "dur", KBuilder: "*StringBuilder", KSafeStringer: "SafeStringer", KFormatterWS: "FormatterWS", KMapIfaceKey: "map[any]string", KMapStructKey: "map[struct]int", KMapSortKeys: "map[sortable]string", KRune: "rune", KPanicRuntime: "panicRuntime", KAnonTagged: "anonTagged", KNilMapStringer: "nilMapStringer", KNilSliceError: "nilSliceError", KNilFuncStringer: "nilFuncStringer"}
+		KDuration: "dur", KBuilder: "*StringBuilder", KSafeStringer: "SafeStringer", KFormatterWS: "FormatterWS", KMapIfaceKey: "map[any]string", KMapStructKey: "map[struct]int", KMapSortKeys: "map[sortable]string", KRune: "rune", KPanicRuntime: "panicRuntime", KAnonTagged: "anonTagged", KSafeBytes: "safeBytes", KSafeNilMap: "safeNilMap", KNilMapStringer: "nilMapStringer", KNilSliceError: "nilSliceError", KNilFuncStringer: "nilFuncStringer"}
 	s := names[v.K]
 	if v.K == KRedactable || v.K == KRedactableB {
 		s += fmt.Sprintf("%q", v.R)
